@@ -696,6 +696,18 @@ def run_interp_case(case):
                 return True, "gdist2p differs from gdist2g of the interpolated positions", "gdist-p"
             if not _bits_equal(B.gdist2p(sc, sp), A.gdist2p(sc, sp)):
                 return True, "gdist2p depends on the supplied row order", "interp-row-order"
+            # windowed forms: the window selects among the distances of ALL markers, exactly as in the genetic-position form
+            nq = len(sc)
+            for lo, hi in ((1, None), (None, nq - 1), (1, nq - 1), (nq // 2, nq)) if nq >= 3 else ():
+                try:
+                    g1 = B.gdist1g(sc, sg, lo, hi)
+                    g2 = B.gdist2g(sc, sg, lo, hi, 0, nq - 1)
+                except Exception:
+                    continue
+                if not _bits_equal(B.gdist1p(sc, sp, lo, hi), g1):
+                    return True, "gdist1p(window %r:%r) differs from gdist1g of the interpolated positions with the same window" % (lo, hi), "gdist-p"
+                if not _bits_equal(B.gdist2p(sc, sp, lo, hi, 0, nq - 1), g2):
+                    return True, "gdist2p(rows %r:%r) differs from gdist2g of the interpolated positions with the same window" % (lo, hi), "gdist-p"
         if case.get("igmap") and len(q) > 0:
             if extended:
                 new = B.interp_gmap(qc.astype("int64"), qp.astype("int64"), qp.astype("int64"))
